@@ -10,7 +10,7 @@ Driver for C09 / C10-B.  Grammar: see harness/src/bin/c09.rs.
                                 candidate list (it comes out of a HashSet), joined by ` || `
   drv_c09 oracle : case | obs ↦ `ok <tags>` / `fail <clause>`   clauses: goal-false-after (i),
                                 not-reachable (ii), not-restored / leaked-frames (iii), incomplete (iv),
-                                incomplete-interference (iv-b)
+                                incomplete-deadend (iv-c: inconsistent only through dead-end rules), incomplete-interference (iv-b)
   query := `!<atom>` is the NEGATED query `NOT <atom>` (model: RreModel/C09/Ext.lean; oracle clauses (ii), (iii) only — (i) and
            (iv) are stated for atomic goals); rule := `*<rule>` is a rule added DISABLED (`enabled = false`): the oracle's
            rule set (forward closure, completeness) is the ENABLED rules, the model treats a disabled candidate as a no-op
@@ -436,6 +436,9 @@ def oracleCore (iiiFirst : Bool) (c : Case) (hit : Bool) (o : String) : String :
           else if !restored before after depth provable then "fail not-restored"
           else if c.fresh && !c.neg && c.strategy == .dfs && !complete c.kb before c.maxDepth c.goal provable then
             s!"fail incomplete ms{if c.maxSol > 1 then "N" else "1"} {if hasIntLiteral c.kb then "int-literal" else if !noIntLit c.kb then "optext-literal" else "plain"}"
+          -- (iv-c) before (iv-b): a knowledge base that is inconsistent only through dead-end rules
+          else if c.fresh && !c.neg && c.strategy == .dfs && !completeDeadEnds c.kb before c.maxDepth c.goal provable then
+            s!"fail incomplete-deadend ms{if c.maxSol > 1 then "N" else "1"}"
           else if c.fresh && !c.neg && c.strategy == .dfs && !completeInconsistent nFields c.kb before c.maxDepth c.goal provable then
             "fail incomplete-interference"
           else
@@ -450,6 +453,7 @@ def oracleCore (iiiFirst : Bool) (c : Case) (hit : Bool) (o : String) : String :
               ++ (match lvl with | some k => [s!"level{k}"] | none => if horn then ["underivable"] else [])
               ++ (if c.fresh && !c.neg && horn && derivableIn c.kb d0 c.maxDepth c.goal && c.strategy == .dfs then ["complete_clause_applied"] else [])
               ++ (if c.fresh && !c.neg && c.strategy == .dfs && interferenceClause nFields c.kb before c.maxDepth c.goal then ["interference_clause_applied"] else [])
+              ++ (if c.fresh && !c.neg && c.strategy == .dfs && deadEndClause c.kb before c.maxDepth c.goal then ["deadend_clause_applied"] else [])
               ++ (if c.neg then ["negated"] else [])
               -- a negated DFS query that is not provable although its positive form is false in the initial facts: a proof of
               -- the positive form was found and discarded
